@@ -60,6 +60,61 @@ def cpp_strings(run, exprs, includes):
     return res
 
 
+def fn_body(src, name):
+    """body of the DEFINITION of `name` (header starts in column 0; a call site `if (name(x)) {` is not a definition), or None"""
+    for m in re.finditer(r"^[A-Za-z_][^\n;{}]*?\b" + re.escape(name) + r"\s*\(", src, re.M):
+        # parameter list: balanced parentheses, then `{`
+        i, depth = m.end(), 1
+        while i < len(src) and depth:
+            depth += {"(": 1, ")": -1}.get(src[i], 0)
+            i += 1
+        k = i
+        while k < len(src) and src[k] in " \t\r\n":
+            k += 1
+        if k >= len(src) or src[k] != "{":
+            continue            # a prototype
+        j, depth = k + 1, 1
+        while j < len(src) and depth:
+            ch = src[j]
+            if ch == "{":
+                depth += 1
+            elif ch == "}":
+                depth -= 1
+            elif ch == '"':
+                j += 1
+                while j < len(src) and src[j] != '"':
+                    j += 2 if src[j] == "\\" else 1
+            elif ch == "'":
+                j += 1
+                while j < len(src) and src[j] != "'":
+                    j += 2 if src[j] == "\\" else 1
+            j += 1
+        return src[k + 1:j - 1]
+    return None
+
+
+def reach(src, fn, depth=2):
+    """body of fn followed by the bodies of the file-local static functions it calls (to the given depth): the text a statement may
+    have been moved to by an "extract a static helper" clean-up.  None when fn itself is not found."""
+    body = fn_body(src, fn)
+    if body is None:
+        return None
+    statics = set(re.findall(r"^static\b[^\n;{}(]*?\b(\w+)\s*\(", src, re.M))
+    seen, todo, out = {fn}, [(body, 0)], [body]
+    while todo:
+        b, d = todo.pop()
+        if d >= depth:
+            continue
+        for name in sorted(statics):
+            if name not in seen and re.search(r"\b%s\s*\(" % re.escape(name), b):
+                hb = fn_body(src, name)
+                if hb is not None:
+                    seen.add(name)
+                    out.append(hb)
+                    todo.append((hb, d + 1))
+    return "\n".join(out)
+
+
 def registry_names(run, rel, array):
     """string entries of `char *<array>[] = { ... }` in the preprocessed file (i.e. under the guards that hold), without the final ""."""
     pp = preprocessed(run, rel)
@@ -72,6 +127,16 @@ def registry_names(run, rel, array):
 
 # ---------------------------------------------------------------------------------------- skeletons with `=` inside expressions
 class Fn2(skelmod.Fn):
+    """skel.Fn + assignment inside an expression + non-printable string literals; inlined static helpers are translated by Fn2 as well"""
+    def _inlinable(self, call):
+        res = super()._inlinable(call)
+        if res is None:
+            return None
+        h, stmts, ret = res
+        h2 = Fn2(h.node, h.statics, h.subst, h.depth)
+        h2.params = []
+        return h2, stmts, ret
+
     def expr(self, n):
         s = skelmod.strip(n)
         if s.get("kind") == "StringLiteral":
@@ -113,7 +178,8 @@ def emit_fault_skeletons(run):
             run.notes.append("skeleton translator: function %s not found in %s" % (fn, rel))
             n, body = 0, '[SOther "missing function"]'
         else:
-            f = Fn2(node)
+            statics = {k: v for k, v in cache[rel].items() if v.get("storageClass") == "static"}
+            f = Fn2(node, statics)       # calls of file-local static helpers are spliced in (vlib/skel.py): "extract a helper" leaves the skeleton unchanged
             n, body = len(f.params), f.stmts(f.body)
         out.append("Definition %s : fn_skel := {| sk_name := %s; sk_nparams := %d; sk_body :=\n %s |}.\n" % (ident, q(fn), n, body))
     run.write_gen("Gen_FaultSkel.v", "\n".join(out))
@@ -165,11 +231,11 @@ def arg_expr(text, call, index, nargs=None):
 
 def fopen_mode(run, rel, fn, notes, nfopen=1):
     pp = preprocessed(run, rel)
-    body = func_body(strip_comments(pp), fn)
+    body = reach(pp, fn)
     if body is None:
         notes.append("translator: %s not found in %s" % (fn, rel))
         return b""
-    calls = re.findall(r"\bfopen\s*\(\s*[^,]+,\s*" + STR + r"\s*\)", func_body(pp, fn) or "")
+    calls = re.findall(r"\bfopen\s*\(\s*[^,]+,\s*" + STR + r"\s*\)", body)
     if len(calls) != nfopen:
         notes.append("translator: %s has %d fopen calls (expected %d)" % (fn, len(calls), nfopen))
         return b""
@@ -187,7 +253,7 @@ def tr_fault(run, objs=None):
     v.update(bits)
     # ---- socketoutput.c (preprocessed: the compiled #if branch)
     spp = preprocessed(run, "src/output/socketoutput.c")
-    sb = func_body(spp, "snoopy_output_socketoutput") or ""
+    sb = reach(spp, "snoopy_output_socketoutput") or ""
     ex = {"sock_dom": arg_expr(sb, "socket", 0, 3), "sock_ty": arg_expr(sb, "socket", 1, 3), "send_flags": arg_expr(sb, "send", 3, 4),
           "sock_path_max": arg_expr(sb, "strncpy", 2, 3)}
     if len(re.findall(r"\bsocket\s*\(", sb)) != 1 or len(re.findall(r"\bsend\s*\(", sb)) != 1 or len(re.findall(r"\bconnect\s*\(", sb)) != 1:
@@ -199,7 +265,7 @@ def tr_fault(run, objs=None):
     v.update(cpp_values(run, ex, includes=("sys/socket.h", "sys/un.h", "fcntl.h")))
     # ---- fileoutput.c
     fpp = preprocessed(run, "src/output/fileoutput.c")
-    fb = func_body(fpp, "snoopy_output_fileoutput") or ""
+    fb = reach(fpp, "snoopy_output_fileoutput") or ""
     fl = arg_expr(fb, "open", 1)
     if len(re.findall(r"\bopen\s*\(", fb)) != 1 or re.search(r"\b(fopen|fdopen|openat|creat)\s*\(", fb):
         notes.append("translator: fileoutput.c does not open its file with exactly one open() call")
@@ -218,11 +284,11 @@ def tr_fault(run, objs=None):
     v["mode_rpname"] = fopen_mode(run, "src/datasource/rpname.c", "read_proc_property", notes)
     v["mode_spawns"] = fopen_mode(run, "src/filter/exclude_spawns_of.c", "find_ancestor_in_list", notes)
     v["mode_domain"] = fopen_mode(run, "src/datasource/domain.c", "snoopy_datasource_domain", notes)
-    dpp = func_body(preprocessed(run, "src/datasource/domain.c"), "snoopy_datasource_domain") or ""
+    dpp = reach(preprocessed(run, "src/datasource/domain.c"), "snoopy_datasource_domain") or ""
     m = re.search(r"\bfopen\s*\(\s*" + STR + r"\s*,", dpp)
     v["hosts_path"] = c_unescape(m.group(1)) if m else b""
     # ---- util/file.c read loop
-    ub = func_body(preprocessed(run, "src/util/file.c"), "snoopy_util_file_getSmallTextFileContent") or ""
+    ub = reach(preprocessed(run, "src/util/file.c"), "snoopy_util_file_getSmallTextFileContent") or ""
     m1 = re.search(r"while\s*\(\s*bytesReadTotal\s*<\s*(\d+)\s*\)", ub)
     m2 = re.search(r"bytesReadNow\s*=\s*fread\s*\(\s*contentPtr\s*\+\s*bytesReadTotal\s*,\s*1\s*,\s*(\d+)\s*,\s*fileHandle\s*\)", ub)
     m3 = re.search(r"bytesReadNow\s*<\s*(\d+)", ub)
@@ -233,13 +299,13 @@ def tr_fault(run, objs=None):
         notes.append("translator: read loop of util/file.c not recognised")
         v["file_max"], v["file_fread"] = 0, 0
     # ---- exclude_spawns_of.c
-    eb = func_body(preprocessed(run, "src/filter/exclude_spawns_of.c"), "find_ancestor_in_list") or ""
+    eb = reach(preprocessed(run, "src/filter/exclude_spawns_of.c"), "find_ancestor_in_list") or ""
     m1 = re.search(r"fread\s*\(\s*st_buf\s*,\s*1\s*,\s*([^,]+),\s*statf\s*\)", eb)
     m2 = re.search(r"if\s*\(\s*rc\s*<\s*([^)]+)\)", eb)
     m3 = re.search(r"len\s*>=\s*([^)]+)\)", eb)
     sp = cpp_values(run, {"sp_read": m1.group(1) if m1 else None, "sp_min": m2.group(1) if m2 else None, "sp_comm_max": m3.group(1) if m3 else None}, includes=("stdio.h",))
     v.update(sp)
-    rb = func_body(preprocessed(run, "src/datasource/rpname.c"), "read_proc_property") or ""
+    rb = reach(preprocessed(run, "src/datasource/rpname.c"), "read_proc_property") or ""
     m = re.search(r"if\s*\(\s*vLen\s*>\s*(\d+)\s*\)", rb)
     v["rp_val_max"] = int(m.group(1)) if m else 0
     # ---- error.c guard (T1 reading; cross-checked against the T2 skeleton in the property file)
@@ -252,7 +318,7 @@ def tr_fault(run, objs=None):
     v["outputs_enabled"] = registry_names(run, "src/outputregistry.c", "snoopy_outputregistry_names")
     v["datasources_enabled"] = registry_names(run, "src/datasourceregistry.c", "snoopy_datasourceregistry_names")
     v["filters_enabled"] = registry_names(run, "src/filterregistry.c", "snoopy_filterregistry_names")
-    ab = func_body(preprocessed(run, "src/action/log-syscall-exec.c"), "snoopy_action_log_syscall_exec") or ""
+    ab = reach(preprocessed(run, "src/action/log-syscall-exec.c"), "snoopy_action_log_syscall_exec") or ""
     v["filtering_compiled"] = "snoopy_filtering_check_chain" in ab
     # ---- defaults of the configuration (for the harness: what is in force when the file cannot be read)
     d = cpp_strings(run, {"output": "SNOOPY_OUTPUT_DEFAULT", "output_arg": "SNOOPY_OUTPUT_DEFAULT_ARG", "message_format": "SNOOPY_MESSAGE_FORMAT",
@@ -303,5 +369,39 @@ def tr_fault(run, objs=None):
     extra = open(ex_tsv).read() if os.path.exists(ex_tsv) else ""
     open(os.path.join(run.scratch, "consts_fault.tsv"), "w").write("\n".join(tsv) + "\n" + extra)
     v["defaults"] = defaults
-    run.consts["fault"] = {k: (x.hex() if isinstance(x, bytes) else x) for k, x in v.items() if k not in ("defaults", "object_calls") and not isinstance(x, list)}
+    # everything the check needs AFTER the proof step goes through run.consts (JSON-able): when an obligation is broken, vlib/core.py
+    # replaces it in place by the reference copy, and the search runs against the constants the theorems were proved for
+    js = {}
+    for k, x in v.items():
+        if k == "object_calls":
+            continue
+        if k == "defaults":
+            js[k] = {dk: (dx.hex() if isinstance(dx, bytes) else dx) for dk, dx in x.items()}
+        elif isinstance(x, bytes):
+            js[k] = x.hex()
+        elif isinstance(x, list):
+            js[k] = [y.hex() for y in x]
+        else:
+            js[k] = x
+    run.consts["fault"] = js
+    return v
+
+
+BYTES_KEYS = ("devtty_path", "devnull_path", "devlog_path", "mode_ini", "mode_file", "mode_rpname", "mode_spawns", "mode_domain", "hosts_path")
+LIST_KEYS = ("outputs_enabled", "datasources_enabled", "filters_enabled")
+DEFAULT_BYTES = ("output", "output_arg", "message_format", "filter_chain", "syslog_ident")
+
+
+def fault_values(run):
+    """the python-typed view of run.consts["fault"] (regenerated, or the reference copy after a broken obligation)"""
+    js = run.consts["fault"]
+    v = dict(js)
+    for k in BYTES_KEYS:
+        v[k] = bytes.fromhex(js.get(k, ""))
+    for k in LIST_KEYS:
+        v[k] = [bytes.fromhex(y) for y in js.get(k, [])]
+    d = dict(js.get("defaults", {}))
+    for k in DEFAULT_BYTES:
+        d[k] = bytes.fromhex(d.get(k, ""))
+    v["defaults"] = d
     return v
